@@ -38,6 +38,9 @@ DOC_POOL = [
     "Trailing dash -",
     "<!-- nested comment start",
     "a\tb tab and    spaces",
+    "An arrow ---> and a rule ----- of hyphens.",
+    "--- starts with three, ends with four ----",
+    "-",
 ]
 
 
